@@ -9,7 +9,7 @@ Import ListNotations.
 Ltac val :=
   first [ apply va_string; vm_compute; reflexivity
         | apply va_number; [apply num_okb_ok; vm_compute; reflexivity | vm_compute; reflexivity]
-        | apply va_list; [discriminate | repeat (apply Forall_cons || apply Forall_nil); vm_compute; reflexivity | vm_compute; exact I] ].
+        | apply va_list; [reflexivity | discriminate | repeat (apply Forall_cons || apply Forall_nil); vm_compute; reflexivity | vm_compute; exact I] ].
 
 Ltac slots :=
   first [ apply sa_nil
@@ -30,7 +30,7 @@ Strategy opaque [ex_nodes].
 Example ex_parse : parse gen_tables ex_text = Accept ex_nodes.
 Proof. vm_compute. reflexivity. Qed.
 
-Example ex_canon : Forall2 canon_cmd ex_script ex_nodes.
+Example ex_canon : Forall2 (canon_cmd std_sep) ex_script ex_nodes.
 Proof.
   unfold ex_script.
   let v := eval vm_compute in ex_nodes in assert (E : ex_nodes = v) by (vm_compute; reflexivity). rewrite E. clear E.
@@ -52,8 +52,8 @@ Proof.
 Qed.
 
 (* the printed text of that tree, by the model of tosieve, is the layout of the script ... *)
-Example ex_printed : tosieve_all 5 ex_nodes = script_text ex_script.
-Proof. apply tosieve_layout; [exact ex_canon|discriminate|vm_compute; lia]. Qed.
+Example ex_printed : tosieve_all 5 ex_nodes = script_text std_sep ex_script.
+Proof. first [apply (tosieve_layout std_sep std_sep_space)|apply (tosieve_layout std_sep)]; [exact ex_canon|discriminate|vm_compute; lia]. Qed.
 
 (* ... and the round-trip theorem applies: that text parses back to the same tree *)
 Definition accepted (o : outcome) : list node := match o with Accept r => r | _ => [] end.
@@ -64,7 +64,7 @@ Proof.
   assert (E : ns = ex_nodes).
   { rewrite ex_parse in Hp. apply (f_equal accepted) in Hp. cbn [accepted] in Hp. symmetry. exact Hp. }
   subst ns.
-  apply (print_parse_roundtrip gen_tables ex_script ex_nodes L' 5 twf_gen_tables Hwf ex_canon); [discriminate|].
+  apply (print_parse_roundtrip std_sep std_sep_space gen_tables ex_script ex_nodes L' 5 twf_gen_tables Hwf ex_canon); [discriminate|].
   vm_compute. lia.
 Qed.
 
